@@ -395,7 +395,68 @@ ElemLiteralResult::evaluateAVTs(StylesheetExecutionContext& executionContext) co
 
             avt->evaluate(theStringedValue, *this, executionContext);
 
-            executionContext.addResultAttribute(theName, theStringedValue);
+            const XalanDOMString::size_type     theColonIndex =
+                indexOf(theName, XalanUnicode::charColon);
+
+            const XalanDOMString*   theNamespace = 0;
+            const XalanDOMString*   theBoundNamespace = 0;
+
+            if (theColonIndex < theName.length() &&
+                startsWith(theName, DOMServices::s_XMLNamespaceWithSeparator) == false)
+            {
+                const StylesheetExecutionContext::GetCachedString   thePrefixGuard(executionContext);
+
+                XalanDOMString&     thePrefix = thePrefixGuard.get();
+
+                substring(theName, thePrefix, 0, theColonIndex);
+
+                if (equals(thePrefix, DOMServices::s_XMLString) == false)
+                {
+                    theNamespace = getNamespacesHandler().getNamespace(thePrefix);
+                    theBoundNamespace = executionContext.getResultNamespaceForPrefix(thePrefix);
+                }
+            }
+
+            if (theNamespace == 0 ||
+                theBoundNamespace == 0 ||
+                *theNamespace == *theBoundNamespace)
+            {
+                executionContext.addResultAttribute(theName, theStringedValue);
+            }
+            else
+            {
+                // An attribute from an attribute set has re-bound the prefix of this
+                // literal attribute on the element, so the attribute needs another
+                // prefix to stay in its namespace.
+                const StylesheetExecutionContext::GetCachedString   theNameGuard(executionContext);
+
+                XalanDOMString&     theNewName = theNameGuard.get();
+
+                const XalanDOMString* const     theOtherPrefix =
+                    executionContext.getResultPrefixForNamespace(*theNamespace);
+
+                if (theOtherPrefix != 0 && theOtherPrefix->empty() == false)
+                {
+                    theNewName = *theOtherPrefix;
+                }
+                else
+                {
+                    executionContext.getUniqueNamespaceValue(theNewName);
+
+                    const StylesheetExecutionContext::GetCachedString   theDeclGuard(executionContext);
+
+                    XalanDOMString&     theDeclaration = theDeclGuard.get();
+
+                    theDeclaration = DOMServices::s_XMLNamespaceWithSeparator;
+                    theDeclaration += theNewName;
+
+                    executionContext.addResultAttribute(theDeclaration, *theNamespace);
+                }
+
+                theNewName.append(theName.c_str() + theColonIndex);
+
+                executionContext.addResultAttribute(theNewName, theStringedValue);
+            }
 
             theStringedValue.clear();
         }
